@@ -47,6 +47,8 @@ ASSUMPTIONS = [
     "'within a few percent' is decided by evaluation on real runs, not by a theorem: tolerance 3 % of the heat "
     "exchanged so far + the enthalpy of one grid layer (1/Nz of the product; + 1/Nr with a cooled wall)",
     "runs have <= 10 000 steps so that every step is recorded",
+    "clause top_boundary_flux: the flux applied at the top is recovered exactly (1e-2 W/m2) from consecutive recorded "
+    "fields by inverting the top-node update; vacuum windows before / around / after nucleation",
     "vial geometries off the default aspect ratio; tall narrow vials (H > D) only in the thorough tier (cost)",
 ]
 RULE = ("2D runs (shelf / VISF / jacket) and 1D runs (shelf / VISF) on vials off the default aspect ratio with "
@@ -106,6 +108,14 @@ def predicates(case, impl):
             detail=(f"enthalpy change {e['dH']:.4g} J vs boundary heat {e['Q']:.4g} J at reported row {e['row']}: "
                     f"|dH-Q| is {e['ratio']:.2f} x the tolerance (3% of {e['Qabs']:.4g} J + grid term {e['grid']:.4g} J);"
                     f" final dH/Q = {e['final_dH_over_Q']}")))
+    tf = impl.get("topflux")
+    if tf and tf.get("n") and tf["score"] > 1.0:
+        out.append(Failure(
+            clause="top_boundary_flux", key=f"top_boundary_flux|{site}|{cfg}|{tf['stage']}",
+            detail=(f"{tf['stage']} stage, reported row {tf['row']} (top temperature {tf['T_top']:.3f} K): the heat flux "
+                    f"applied at the top surface, inferred from two consecutive fields, is {tf['q_applied']:.6g} W/m2; the "
+                    f"boundary condition of the model (evaporation inside the vacuum window of a VISF run, insulated "
+                    f"otherwise) gives {tf['q_expected']:.6g} W/m2")))
     if abs(e["jump_dH"]) > 1e-6 * max(e["jump_scale"], 1e-30):
         out.append(Failure(
             clause="nucleation_adiabatic", key=f"nucleation_adiabatic|{site}|{cfg}",
